@@ -77,9 +77,16 @@ impl Step {
     }
 }
 
+/// `HWriteTag` with this tag writes zeros (whole sectors of zeros over existing data are a
+/// case of their own for a writer that treats zero sectors specially).
+pub const ZERO_TAG: u64 = u64::MAX;
+
 /// Payload of the j-th write of a case: never zero, so stale bytes are distinguishable
 /// from zero fill and a read identifies the write it observed.
 pub fn payload(j: u64, len: usize) -> Vec<u8> {
+    if j == ZERO_TAG {
+        return vec![0u8; len];
+    }
     (0..len).map(|i| 1 + ((j.wrapping_mul(131).wrapping_add(i as u64 * 7)) % 255) as u8).collect()
 }
 
@@ -597,7 +604,9 @@ impl Session {
                         let d = describe_bytes_diff(&rest[..l], slice);
                         mk("prefix of model[pos..]".into(), d, "contract | bytes")
                     } else {
-                        let k = l * (*eighths as usize).min(8) / 8;
+                        // eighths = 255: consume exactly one byte if there is one (an outcome
+                        // that does not depend on how much fill_buf offered)
+                        let k = if *eighths == 255 { l.min(1) } else { l * (*eighths as usize).min(8) / 8 };
                         stream.consume(k);
                         h.pos += k as u64;
                         Ok(())
